@@ -60,6 +60,8 @@ type Scenario struct {
 	Peers       int            `json:"peers,omitempty"`
 	StallAt     int            `json:"stall_at,omitempty"` // tcp, one peer: before its n-th frame (1-based) the peer sends only StallOctets of it, pauses longer than the server\'s read timeout, then carries on
 	StallOctets int            `json:"stall_octets,omitempty"`
+	CutAt       int            `json:"cut_at,omitempty"`     // tcp, one peer: its n-th frame (1-based) announces its full length but only CutOctets of the body are sent before the peer closes
+	CutOctets   int            `json:"cut_octets,omitempty"` // body octets sent (chosen on a question / record boundary as often as not)
 	ShutAfter   int            `json:"shut_after,omitempty"` // udp: Shutdown is called after this many steps, while peers are still sending (0 = after they are done)
 	Transient   []int          `json:"transient,omitempty"`  // these accept / datagram-read attempts fail with a temporary, non-timeout error
 	UDPSock     bool           `json:"udp_sock,omitempty"`   // udp: the server runs on a UDP socket (SessionUDP branch) where the build has that seam
@@ -161,6 +163,30 @@ func Gen(seed uint64, tier string) any {
 		sc.StallAt = 1 + r.IntN(len(sc.Msgs))
 		b, _ := hex.DecodeString(sc.Msgs[sc.StallAt-1].Hex)
 		sc.StallOctets = r.IntN(len(b) + 2)
+	}
+	if sc.Transport == "tcp" && sc.StallAt == 0 && core.Chance(r, 15) {
+		// a peer that goes away in the middle of a frame: the message it had begun is not a message the server received
+		sc.Peers = 1
+		for i := range sc.Msgs {
+			sc.Msgs[i].Peer = 0
+		}
+		sc.CutAt = 1 + r.IntN(len(sc.Msgs))
+		b, _ := hex.DecodeString(sc.Msgs[sc.CutAt-1].Hex)
+		sc.CutOctets = r.IntN(len(b) + 1)
+		if lay, err := oracle.Parse(b); err == nil && core.Chance(r, 70) {
+			// where a decoder that trusts the counts less than the octets would stop cleanly
+			cuts := []int{12}
+			for _, q := range lay.Questions {
+				cuts = append(cuts, q.End)
+			}
+			for _, rr := range lay.RRs {
+				cuts = append(cuts, rr.RdEnd)
+			}
+			sc.CutOctets = cuts[r.IntN(len(cuts))]
+		}
+		if sc.CutOctets >= len(b) {
+			sc.CutOctets = max(len(b)-1, 0)
+		}
 	}
 	if core.Chance(r, 12) {
 		sc.Transient = append(sc.Transient, r.IntN(3))
@@ -459,6 +485,18 @@ func (p *peerTask) RunEvent(time.Time) {
 					fr = fr[n:]
 				}
 				k.Sleep("peer.stall", 3*stallTimeout)
+			}
+			if a.sc.CutAt == sentFrames {
+				// announce the whole message, send part of it, go away
+				k.Bump("fault.peer_closes_mid_frame")
+				sconn.Write(fr[:min(2+a.sc.CutOctets, len(fr)-1)])
+				k.Sleep("peer.cut", 50*time.Millisecond)
+				if a.sc.RunSeed%2 == 0 {
+					sconn.Close()
+				} else {
+					sconn.Reset()
+				}
+				return
 			}
 			if len(fr) > 0 {
 				if _, err := sconn.Write(fr); err != nil {
@@ -838,6 +876,19 @@ func (a *adm) judge() {
 				res.Bump("oracle.D5_refused_echo")
 				lay, err := oracle.Parse(r.raw)
 				in, ierr := oracle.Parse(inboundSeen(a, id))
+				if seen := inboundSeen(a, id); len(seen) == 12 {
+					// nothing but a header came in: whatever question the reply carries is not this request's
+					res.Bump("oracle.D5_refused_nothing_to_echo")
+					if err != nil || len(lay.Questions) != 0 {
+						q := "?"
+						if err == nil {
+							q = lay.Questions[0].Name
+						}
+						res.Fail("D5", "refused-foreign-question", "message id %d was a bare header (no question octets), yet the REFUSED reply to it carries a question (%s): not this request's", id, q)
+						return
+					}
+					continue
+				}
 				if ierr != nil || len(in.Questions) < 1 {
 					res.Bump("cover.d5_skipped_unwalkable_request")
 					continue
